@@ -82,6 +82,9 @@ def spaces(tier, seed):
                 note="every ordered pair of the 205 languages on numeric dates every language accepts: the higher-priority (or first given) language decides"),
         Product("autodetect-reproducible", {"src": ["gen", "corpus"], "s": range(max(len(gen), len(cor)))}),
         Product("region-equals-locale", {"rl": range(len(regional)), "k": range(4)}),
+        Product("parse-function-selection-forms", {"rl": range(len(regional)), "order": [0, 1, 2]},
+                note="dateparser.parse() called with the same codes as languages= (+region) and as locales=, in either order, and with a locale code given "
+                     "as a language: every call must give what a fresh DateDataParser with the same arguments gives (two- and three-call histories)"),
         Product("language-list-with-region", {"rl": range(len(regional)), "other": ["en", "fr"], "pos": [0, 1]}),
     ]
     return sp
@@ -105,13 +108,30 @@ def single(s, lang, extra=None):
 def run_case(sub, c):
     global _regional
     gen, cor = strings()
-    if sub in ("region-equals-locale", "language-list-with-region"):
+    if sub in ("region-equals-locale", "language-list-with-region", "parse-function-selection-forms"):
         if _regional is None:
             from dateparser.data.languages_info import language_locale_dict
             _regional = [(l, loc) for l in vocab.languages() for loc in sorted(language_locale_dict.get(l, []))]
         lang, loc = _regional[c["rl"]]
         region = loc[len(lang) + 1:]
         mine = [x[2] for x in gen if x[1] == lang][:3] + ["12/11/2010 10:30"]
+        if sub == "parse-function-selection-forms":
+            import dateparser
+            from dateparser.date import DateDataParser
+            s = "12/11/2010 10:30"
+            st = {"RELATIVE_BASE": BASE}
+            forms = [{"languages": [lang], "region": region}, {"locales": [lang], "region": region}, {"locales": [loc]}, {"languages": [loc]}]
+            seq = [[0, 1, 2, 3], [1, 0, 3, 2], [2, 3, 1, 0]][c["order"]]
+            for i in seq:
+                kw = forms[i]
+                got = api.outcome_of(dateparser.parse, s, settings=dict(st), **{k: (list(v) if isinstance(v, list) else v) for k, v in kw.items()})
+                ref = api.outcome_of(lambda: DateDataParser(settings=dict(st), **{k: (list(v) if isinstance(v, list) else v) for k, v in kw.items()}).get_date_data(s).date_obj)
+                fg = got[1:2] if got[0] == "exc" else got[1]
+                fr = ref[1:2] if ref[0] == "exc" else ref[1]
+                if got[0] != ref[0] or fg != fr:
+                    return "bad", True, {"cls": {"form": sub, "language": lang, "kind": "parse() differs from a fresh DateDataParser", "call": sorted(kw)[0]},
+                                         "expected": fr, "observed": fg, "detail": {"string": s, "call": kw, "calls_before": [forms[j] for j in seq[:seq.index(i)]]}}
+            return "ok", True, None
         if sub == "region-equals-locale":
             if c["k"] >= len(mine):
                 return None
